@@ -1,4 +1,6 @@
 """C04 — server connection lifecycle (K4 histories; asyncio schedules are in the sched kernel)."""
+import collections
+
 from .. import common as C
 from .. import server_sim as S
 
@@ -6,10 +8,55 @@ LEVEL = 'proof'
 
 PROFILE = {
     'weights': {'open': 3, 'connect': 10, 'client_disconnect': 4, 'event': 2, 'ack': 0, 'emit': 3, 'emit_cb': 0,
-                'api_disconnect': 4, 'enter': 1, 'leave': 0, 'close': 0, 'rooms': 1, 'lost': 3, 'partial_binary': 0},
+                'api_disconnect': 4, 'enter': 3, 'leave': 1, 'close': 1, 'rooms': 2, 'lost': 3, 'partial_binary': 0},
     'connect_outcomes': {'accept': 5, 'false': 2, 'refuse': 4, 'raise': 0},
     'async_handlers': False,
+    # "from then on that session id is in no room and is never delivered to again": the application goes on using
+    # session ids after their end (and with the wrong namespace) -- enter_room / rooms / emit to that room
+    'stale_p': 0.4, 'stale_enter_p': 0.4,
 }
+
+STATS = collections.Counter()      # what the oracle saw (flushed into the evidence by run())
+MEASURING = [False]                # the oracle counts only when called by measure(): once per generated history
+
+
+def stat(key):
+    if MEASURING[0]:
+        STATS[key] += 1
+
+
+def measure(cfg, trace):
+    """called once per generated history (never while shrinking): the oracle's own classification of the calls that
+    name no live session goes into the evidence; then the non-triviality key"""
+    MEASURING[0] = True
+    try:
+        oracle(cfg, trace, {})
+    finally:
+        MEASURING[0] = False
+    return nontrivial(cfg, trace)
+
+
+# ---- the engine.io boundary: every write the Socket.IO server hands to engine.io during an op, by destination
+def probe_pre(runner, op):
+    if getattr(runner, '_c04_writes', None) is None:
+        runner._c04_writes = writes = []
+        eio = runner.w.eio
+        orig = eio.send_packet         # eio.send() goes through it too
+        if runner.w.is_async:
+            async def send_packet(sid, pkt, *a, **k):
+                writes.append(sid)
+                return await orig(sid, pkt, *a, **k)
+        else:
+            def send_packet(sid, pkt, *a, **k):
+                writes.append(sid)
+                return orig(sid, pkt, *a, **k)
+        eio.send_packet = send_packet
+    del runner._c04_writes[:]
+    return None
+
+
+def probe_post(runner, op, pre):
+    return [d if isinstance(d, str) or d is None else repr(d) for d in runner._c04_writes]
 
 
 def is_disc(slot):
@@ -28,8 +75,46 @@ def oracle(cfg, trace, residue):
     accepted = {}         # sid -> (tid, ns)
     cf = S.ClientFrames()
     nconn = 0
+    members = {}          # (ns, room) -> session ids: the room table the documentation describes, live sessions only
+    end_cause = {}        # sid -> how its connection ended
+    open_t = set()
+
+    def end(sid, ns, cause):
+        end_cause[sid] = cause
+        for (n, _room), m in members.items():
+            if n == ns:
+                m.discard(sid)
+
+    def is_live(sid, ns):
+        return any(v == sid and k[1] == ns for k, v in conn.items())
+
+    def rooms_of(sid, ns):
+        return sorted(room for (n, room), m in members.items() if n == ns and sid in m)
+
+    def describe(sid, ns):
+        """what kind of (sid, namespace) pair that names no live session this is, from the history"""
+        busy = '.namespace_has_clients' if any(k[1] == ns for k in conn) else '.namespace_empty'
+        if sid in end_cause:
+            other = '' if accepted.get(sid, (None, ns))[1] == ns else '.other_namespace'
+            return 'session_ended_by_%s%s%s' % (end_cause[sid], other, busy)
+        if sid in conn.values():
+            t = [k[0] for k, v in conn.items() if v == sid][0]
+            return 'live_session_wrong_namespace%s%s' % ('.same_client_connected_there' if (t, ns) in conn else '', busy)
+        if sid in ever:
+            return 'refused_session' + busy
+        return 'unknown_id' + busy
+
     for op, im, _mo in trace:
         pkts = S.sent_packets(im)
+        if op['op'] == 'open':
+            open_t.add(op['t'])
+        for dest in im.get('probe') or []:
+            # whatever the cause, the server hands engine.io writes for open transports only: a write for anything
+            # else is a write on behalf of a session that is not there (any more)
+            if dest not in open_t:
+                fails.append((None, 'during %r the server performed an engine.io write addressed to %r, which is not '
+                                    'an open transport (a delivery on behalf of a session that has ended)'
+                              % (S._brief(op), dest)))
         cinv = [i for i in im['invokes'] if is_conn(i[0])]
         dinv = [i for i in im['invokes'] if is_disc(i[0])]
         for slot, args in dinv:
@@ -81,6 +166,7 @@ def oracle(cfg, trace, residue):
                         ever.add(sid)
                         conn[(t, ns)] = sid
                         accepted[sid] = (t, ns)
+                        members.setdefault((ns, sid), set()).add(sid)
                 else:
                     why = S.error_args([]) if out == 'false' else S.error_args(out['refuse'])
                     if cfg['alwaysConnect']:
@@ -93,20 +179,25 @@ def oracle(cfg, trace, residue):
                         fails.append((None, 'refusal %r answered by %r' % (out, mine)))
         elif isinstance(p, dict) and p['type'] == 1:
             sid = conn.pop((op['t'], p['ns']), None)
+            if sid is not None:
+                end(sid, p['ns'], 'client_disconnect')
             if sid is not None and S.has_handler(cfg, p['ns'], 'disconnect') and ended.get(sid, 0) != 1:
                 fails.append((None, 'client DISCONNECT processed but the disconnect handler ran %d times' % ended.get(sid, 0)))
         elif op['op'] == 'disconnect':
             hit = [k for k, v in conn.items() if v == op['sid'] and k[1] == op['ns']]
             for k in hit:
                 sid = conn.pop(k)
+                end(sid, k[1], 'server_disconnect')
                 if [(tt, q['type'], q['ns']) for tt, q in pkts] != [(k[0], 1, k[1])]:
                     fails.append((None, 'disconnect() did not send exactly one DISCONNECT to the client: %r' % (pkts,)))
                 if S.has_handler(cfg, k[1], 'disconnect') and ended.get(sid, 0) != 1:
                     fails.append((None, 'disconnect() processed but the handler ran %d times' % ended.get(sid, 0)))
         elif op['op'] == 'lost':
             cf.drop(op['t'])
+            open_t.discard(op['t'])
             for k in [k for k in conn if k[0] == op['t']]:
                 sid = conn.pop(k)
+                end(sid, k[1], 'transport_loss')
                 if S.has_handler(cfg, k[1], 'disconnect') and ended.get(sid, 0) != 1:
                     fails.append((None, 'transport lost but the disconnect handler of %s on %s ran %d times' % (sid, k[1], ended.get(sid, 0))))
         elif op['op'] == 'emit':
@@ -119,10 +210,55 @@ def oracle(cfg, trace, residue):
                 got = sorted((tt, q['ns']) for tt, q in pkts if q['type'] in (2, 5))
                 if want != got:
                     fails.append((None, 'broadcast reached %r, live sessions are %r' % (got, want)))
+            if not im['exc']:
+                # recipients = the live sessions that are members of the addressed rooms, each once; a session id
+                # that ended is in no room, whatever the application did with that id afterwards
+                to = op.get('to')
+                if to is None:
+                    base = set(v for k, v in conn.items() if k[1] == op['ns'])
+                else:
+                    base = set()
+                    for room in (to['many'] if 'many' in to else [to['one']]):
+                        base |= members.get((op['ns'], room), set())
+                base -= set(op.get('skip', []))
+                want = sorted(k for k, v in conn.items() if k[1] == op['ns'] and v in base)
+                got = sorted((tt, q['ns']) for tt, q in pkts if q['type'] in (2, 5))
+                if want != got:
+                    fails.append((None, 'emit(to=%r, skip=%r) on %s reached %r; the live members of the addressed rooms '
+                                        'are %r' % (to, op.get('skip'), op['ns'], got, want)))
+                if op.get('_stale'):
+                    stat('emit_to_the_room_afterwards')
+                    if want:
+                        stat('emit_to_the_room_afterwards.room_has_live_members')
+        elif op['op'] == 'enter':
+            sid, ns = op['sid'], op['ns']
+            if is_live(sid, ns):
+                if im['exc']:
+                    fails.append((None, 'enter_room(%s, %r) of a live session on %s raised %s' % (sid, op['room'], ns, im['exc'])))
+                else:
+                    members.setdefault((ns, op['room']), set()).add(sid)
+            else:
+                stat('enter_room.' + describe(sid, ns))
+                # the unchanged library raises (ValueError: nobody on that namespace; KeyError: id not connected there)
+                if im['exc'] not in ('KeyError', 'ValueError'):
+                    fails.append((None, 'enter_room(%s, %r, namespace=%r) names no live session (%s) but %s' % (
+                        sid, op['room'], ns, describe(sid, ns),
+                        ('raised ' + im['exc']) if im['exc'] else 'was accepted')))
+        elif op['op'] == 'leave':
+            members.get((op['ns'], op['room']), set()).discard(op['sid'])
+        elif op['op'] == 'close':
+            members.pop((op['ns'], op['room']), None)
         elif op['op'] == 'rooms':
-            live = op['sid'] in conn.values()
-            if not live and im['result']:
-                fails.append((None, 'rooms() of an ended session is %r' % (im['result'],)))
+            sid, ns = op['sid'], op['ns']
+            live = is_live(sid, ns)
+            if not live:
+                stat('rooms.' + describe(sid, ns))
+            if not live and (im['result'] or im['exc']):
+                fails.append((None, 'rooms(%s, namespace=%r) names no live session (%s) but gives %r' % (
+                    sid, ns, describe(sid, ns), im['exc'] or im['result'])))
+            elif live and (im['exc'] or sorted(im['result'] or []) != rooms_of(sid, ns)):
+                fails.append((None, 'rooms(%s, namespace=%r) is %r, the session entered %r' % (
+                    sid, ns, im['exc'] or sorted(im['result'] or []), rooms_of(sid, ns))))
     return fails
 
 
@@ -139,7 +275,24 @@ def run(ctx):
     # literals of the model tied to the source: refusal strings / keys, disconnect reasons (regenerated every run)
     C.audit_extra(ctx, 'GlueServer', ['unable_to_connect', 'refused_error_args', 'server_disconnect_reason',
                                 'client_disconnect_reason'])
-    S.run_cases(ctx, PROFILE, ctx.scale(150, 3000), 45, oracle=oracle, nontrivial=nontrivial, final_lose_all=True)
+    STATS.clear()
+    S.run_cases(ctx, PROFILE, ctx.scale(150, 3000), 45, oracle=oracle, nontrivial=measure, final_lose_all=True,
+                probe_pre=probe_pre, probe_post=probe_post)
+    for k, v in sorted(STATS.items()):
+        ctx.count('no_live_session.' + k, v)
+    ctx.coverage['stale_session_id_calls'] = {
+        'rule': 'server API calls (enter_room, rooms, then emit to that room) whose (sid, namespace) names no live '
+                'session: ids that ended by client DISCONNECT / disconnect() / transport loss, refused ids, live ids '
+                'with another namespace, while the namespace has / has no other clients; oracle: such enter_room raises '
+                'and creates no membership, rooms() is empty, every emit reaches exactly the live members of the rooms '
+                'addressed, and every engine.io write of the server is addressed to an open transport (tap on eio.send_packet)',
+        'enter_room': sum(v for k, v in STATS.items() if k.startswith('enter_room.')),
+        'enter_room_ended_session_while_namespace_has_clients': {
+            c: STATS['enter_room.session_ended_by_%s.namespace_has_clients' % c]
+            for c in ('client_disconnect', 'server_disconnect', 'transport_loss')},
+        'rooms': sum(v for k, v in STATS.items() if k.startswith('rooms.')),
+        'emit_to_the_room_afterwards': STATS['emit_to_the_room_afterwards'],
+    }
     ctx.coverage['rule'] = ('histories over CONNECT(ns, auth)/DISCONNECT/transport loss/disconnect()/broadcasts for several transports '
                             'and namespaces, handlers accepting / returning False / raising ConnectionRefusedError(0-3 args), '
                             'always_connect both ways, namespaces default/list/"*", function and class-based handlers, both server '
@@ -155,4 +308,5 @@ def replay(ctx, r):
     if isinstance(r.get('replay'), dict) and r['replay'].get('kernel') == 'sched_async':
         from .. import sched_async
         return sched_async.replay(ctx, r['replay'])
+    S.PROBES['pre'], S.PROBES['post'] = probe_pre, probe_post
     return S.replay_case(ctx, r, oracle=oracle)
